@@ -319,6 +319,8 @@ def expect(spec, value, ctx):
     if c == "String":
         if isinstance(value, str):
             return ("value", value)
+        if isinstance(value, (list, tuple, dict)):
+            return ("error", ("ParameterNotValid",))      # a collection is not a string (numbers are turned into text)
         return ("type", str)
     if c == "Number":
         if isinstance(value, bool):
